@@ -26,7 +26,7 @@ ASSUMPTIONS = [
     "for delay tables with negative entries the valid-sample outputs are defined for t >= t0 = -min(d,0); out[t'] = x[c, t'+t0+d_c] is accepted (time origin advanced by t0)",
     "labelled float32 data: sums over channels are exact",
 ]
-REQUIRED_OUTCOMES = ["table/ok", "block_roll/ok", "block_valid/ok", "stream/ok", "read_dedisp/ok", "dmt/ok", "dmt_valid/ok", "pulse/ok", "identity/ok"]
+REQUIRED_OUTCOMES = ["table/ok", "sweep/ok", "sweep/near_rounding_tie", "block_roll/ok", "block_valid/ok", "stream/ok", "read_dedisp/ok", "dmt/ok", "dmt_valid/ok", "pulse/ok", "identity/ok"]
 
 BANDS = [(1500.0, -10.0, 8, 1e-3), (1400.0, -1 / 3, 6, 64e-6), (1200.0, 5.0, 4, 1e-3), (1400.0, -1.0, 1, 1e-3)]
 DMS = {0: [0.0, 10.0, -10.0, 30.0, -30.0, 60.0, 100.0, -100.0],
@@ -34,6 +34,7 @@ DMS = {0: [0.0, 10.0, -10.0, 30.0, -30.0, 60.0, 100.0, -100.0],
        2: [0.0, 40.0, -40.0, 100.0, -100.0, 250.0],
        3: [0.0, 50.0, -50.0]}
 NS = 24
+WIDE_BANDS = [(1500.0, -2.0, 64, 128e-6), (1510.0, -0.5, 256, 64e-6), (400.0, 0.390625, 128, 1e-3)]
 K = 4.148808e3
 
 
@@ -44,9 +45,16 @@ def bounds(tier: str) -> dict:
 
 def shards(tier: str, seed: int) -> list:
     out = [{"kind": "table", "band": b} for b in range(len(BANDS))]
+    # delays of hundreds to thousands of samples on wide bands, DMs on a fine grid: rounding ties (a float32 delay of exactly k + 1/2) occur about once
+    # in 1e4 elements, and only there can the rounding rule break the antisymmetry
+    for wb in range(len(WIDE_BANDS)):
+        out.append({"kind": "sweep", "wide": wb, "ndm": 1200 if tier == "quick" else 6000})
     for b in range(len(BANDS)):
         for dm in DMS[b]:
             out.append({"kind": "paths", "band": b, "dm": dm, "ns": NS})
+    # scale lane: blocks of about 10 000 samples (beyond any 4096-sample tile) through every entry point, reduced parameter sets
+    for b, dm in ((0, 100.0), (0, -30.0), (2, 100.0)) if tier == "quick" else ((0, 100.0), (0, -30.0), (0, 60.0), (1, 200.0), (2, 100.0), (2, -40.0)):
+        out.append({"kind": "paths", "band": b, "dm": dm, "ns": 10007})
         if tier == "thorough":
             # a second, odd block length and a finer DM grid
             extra = sorted({round(x * f, 3) for x in DMS[b] for f in (0.5, 0.75, 1.5)} - set(DMS[b]))
@@ -74,11 +82,55 @@ def run_shard(shard: dict, ctx, res, only=None) -> None:
     wd = ctx.workdir("c09")
     if shard["kind"] == "table":
         _table(wd, shard, ctx, res, only)
+    elif shard["kind"] == "sweep":
+        _sweep(wd, shard, ctx, res, only)
     else:
         _paths(wd, shard, ctx, res, only)
 
 
 # ------------------------------------------------------------------------------------------------
+
+
+def _sweep(wd, shard, ctx, res, only):
+    from sigpyproc.readers import FilReader
+
+    fch1, foff, C, tsamp = WIDE_BANDS[shard["wide"]]
+    X = fx.label_data(2, C, 8, 0)
+    p = fx.make_fileset(wd, X, 8, [2], fch1=fch1, foff=foff, tsamp=tsamp, stem=f"w{shard['wide']}_")
+    H = FilReader(p).header
+    f = fch1 + np.arange(C) * foff
+    ties = 0
+    for i in range(1, shard["ndm"] + 1):
+        dm = 0.25 * i
+        if only is not None and [dm] != only:
+            continue
+        res.evaluations += 1
+        case = {"shard": shard, "inner": [dm]}
+        try:
+            d = np.asarray(H.get_dmdelays(dm))
+            dn = np.asarray(H.get_dmdelays(-dm))
+        except Exception as e:  # noqa: BLE001
+            res.violation({"site": "Header.get_dmdelays", "symptom": f"raised {type(e).__name__}"}, case, repr(e))
+            continue
+        exact = K * dm * (f**-2.0 - f[0] ** -2.0) / tsamp
+        frac = np.abs(exact - np.floor(exact) - 0.5)
+        near = int(np.sum(frac < 1e-4 * (1 + np.abs(exact) * 1e-3)))
+        ties += near
+        if not np.array_equal(dn, -d):
+            c = int(np.flatnonzero(dn != -d)[0])
+            res.violation({"site": "Header.get_dmdelays", "symptom": "not antisymmetric in DM", "at_rounding_tie": True}, case,
+                          f"band {WIDE_BANDS[shard['wide']]} dm={dm}: channel {c}: d(+dm)={int(d[c])} d(-dm)={int(dn[c])} (law {exact[c]:.5f})")
+            continue
+        lim = 0.5 + 1e-3 * (1 + np.abs(d))
+        if not np.all(np.abs(d - exact) <= lim):
+            c = int(np.argmax(np.abs(d - exact) - lim))
+            res.violation({"site": "Header.get_dmdelays", "symptom": "delay differs from the dispersion law"}, case, f"dm={dm} chan {c}: {int(d[c])} vs {exact[c]:.4f}")
+            continue
+        res.outcome("sweep/ok")
+        if near:
+            res.outcome("sweep/near_rounding_tie")
+            res.nontrivial += 1
+    res.count("delays_within_1e-4_of_a_tie", ties)
 
 
 def _table(wd, shard, ctx, res, only):
@@ -183,7 +235,9 @@ def _paths(wd, shard, ctx, res, only):
     # ---- block rotation and valid variant for each reference
     fhi, flo = float(max(H.fch1, H.fch1 + (C - 1) * H.foff)), float(min(H.fch1, H.fch1 + (C - 1) * H.foff))
     # named references plus numeric ones above, below and inside the band (int and float): all-positive / all-negative delay tables
-    for ref in ("ch1", "max", "min", "center", fhi + 3 * abs(H.foff) + 1.5, int(round(fhi + 2 * abs(H.foff))) + 1, flo - 2 * abs(H.foff) - 0.25, 0.5 * (fhi + flo) + 0.1):
+    long = n > 1000
+    refs_ = ("ch1", "max", "min", "center", fhi + 3 * abs(H.foff) + 1.5, int(round(fhi + 2 * abs(H.foff))) + 1, flo - 2 * abs(H.foff) - 0.25, 0.5 * (fhi + flo) + 0.1)
+    for ref in (refs_[:1] + refs_[3:4] + refs_[6:7] if long else refs_):
         d = np.atleast_1d(np.asarray(H.get_dmdelays(dm, ref_freq=ref))).astype(int)
         case = ev("block_roll", [ref])
         if case:
@@ -232,7 +286,7 @@ def _paths(wd, shard, ctx, res, only):
     # ---- streamed dedispersion
     if want_v is not None:
         want_ts = want_v.sum(0)
-        for g in (1, 5, 7, n, 10 * n):
+        for g in ((4096, 4099, n) if long else (1, 5, 7, n, 10 * n)):
             case = ev("stream", [g])
             if not case:
                 continue
@@ -250,8 +304,10 @@ def _paths(wd, shard, ctx, res, only):
                 res.violation({"site": "Filterbank.dedisperse", "symptom": f"raised {type(e).__name__}", "negative_delays": neg}, case, repr(e))
     # ---- read_dedisp_block: every in-range (start, nsamps)
     lo, hi = int(min(0, d.min())), int(max(0, d.max()))
-    for start in range(0, n):
-        for ns in range(1, n + 1):
+    s0 = max(0, -lo)
+    pairs = [(s0, n - hi - s0), (s0 + 1234, 4097), (s0 + 1, 8193), (n - hi - 4200, 4200), (0, 3), (n - 3, 3)] if long else [(a, b) for a in range(0, n) for b in range(1, n + 1)]
+    for start, ns in pairs:
+        if True:
             inr = start + int(d.min()) >= 0 and start + int(d.max()) + ns <= n
             if not inr and not (start + ns <= n and (ns in (1, 3))):
                 continue
@@ -281,7 +337,7 @@ def _paths(wd, shard, ctx, res, only):
             else:
                 good("read_dedisp", d)
     # ---- DM-time transform rows
-    for steps in (1, 2, 3, 4, 5):
+    for steps in ((1, 3) if long else (1, 2, 3, 4, 5)):
         for valid in (False, True):
             for ref in ("ch1", 1300.0):
                 name = "dmt_valid" if valid else "dmt"
